@@ -215,13 +215,14 @@ def bound_vars(f, cond):
 def sign_test(f, cond):
     """(local decl id, '>' | '<') for  v > 0, v < 0, 0 < v, 0 > v  (also >=1 / <= -1 are not used in this code base)."""
     c = strip(cond)
-    if c["k"] != "BinaryOperator" or c["op"] not in ("<", ">"):
+    if c["k"] != "BinaryOperator" or c["op"] not in ("<", ">", "<=", ">="):
         return None
     a, b = strip(c["lhs"]), strip(c["rhs"])
+    op = c["op"][0]          # v >= 0 / v <= 0: same side as > / <, equality included
     if const_value(b) == 0 and a["k"] == "DeclRefExpr" and a.get("dk") == "local":
-        return a["d"], c["op"]
+        return a["d"], op
     if const_value(a) == 0 and b["k"] == "DeclRefExpr" and b.get("dk") == "local":
-        return b["d"], {"<": ">", ">": "<"}[c["op"]]
+        return b["d"], {"<": ">", ">": "<"}[op]
     return None
 
 
